@@ -14,6 +14,7 @@ import NixModel.Drive.Frame
 import NixModel.Drive.Search
 import NixModel.Drive.Valid
 import NixModel.Drive.DimDesc
+import NixModel.Drive.Abuse
 /-
   nixmodel: reads a trace (op lines with the implementation's recorded result after `=>`),
   replays each op on the Lean model, evaluates the property relations on the implementation's
@@ -39,7 +40,8 @@ def handlers : List (DState → String → List String → List String → Optio
   Props.handle,
   Frame.handle,
   Search.handle,
-  DimDesc.handle
+  DimDesc.handle,
+  fun st op args impl => (Abuse.handle op args impl).map fun o => (st, o)
 ]
 
 def step (st : DState) (line : String) : DState × Option String :=
